@@ -146,7 +146,23 @@ def hArr : Handler := handler fun args =>
     | _ => none
   | _ => none
 
+/-- `(maavg k depth ((w…)…) ((elem…)…))` ↦ `((num mask) den)`: the numerator tree (masked sum of `a * wgt`) and the
+    denominator tree (plain sum of `w * ~mask`) of `da.ma.average(a, weights=w)` over aligned blocks -/
+def hAvg : Handler := handler fun args =>
+  match args with
+  | [k, d, wss, bs] => do
+    let k ← k.toNat?
+    let d ← d.toNat?
+    let wss ← wss.toIntss?
+    let bs ← (← bs.toList?).mapM toMIs?
+    let prods := List.zipWith wprod wss bs
+    let num := maTree (· + ·) 0 k d (prods.map shrunk)
+    let den := treeReduce isum isum k d ((List.zipWith wgtMasked wss bs).map isum)
+    pure (.list [.list (num.map ofMI), SExp.ofInts den, .list (prods.map fun b => SExp.ofBool (shrunk b).nomask)])
+  | _ => none
+
 def handlers : List (String × Handler) := [
+  ("maavg", hAvg),
   ("machunk", hChunk), ("macomb", hComb), ("matree", hTree),
   ("mameanchunk", hMeanChunk), ("mameancomb", hMeanComb), ("mameantree", hMeanTree),
   ("maminmax", hMinMax), ("maminmaxcomb", hMinMaxComb), ("macount", hCount), ("mamomchunk", hMomChunk),
